@@ -471,7 +471,7 @@ func runScan(in SInput) (ob SObs, crash string) {
 	if gw.stalled() {
 		return ob, slowBurst
 	}
-	ob.Ticks, crash = collect(rec, marker, in.Ticks, "")
+	ob.Ticks, crash = collect(rec, 0, marker, in.Ticks, "")
 	return ob, crash
 }
 
@@ -507,7 +507,7 @@ func runLive(in SInput, v *canary.VerifCanary, rec *recorder) (ob SObs, crash st
 	if gw.stalled() {
 		return ob, slowBurst
 	}
-	ob.Ticks, crash = collect(rec, marker, in.Ticks, srcIP(sentinelSrc).String())
+	ob.Ticks, crash = collect(rec, 0, marker, in.Ticks, srcIP(sentinelSrc).String())
 	return ob, crash
 }
 
@@ -519,7 +519,7 @@ const (
 // collect waits until no portscan event has arrived for quietAfter, then splits the events
 // recorded after `marker` into report rounds (ticks of the detector) by the pauses between
 // them.  Events of the source `skip` are left out.
-func collect(rec *recorder, marker, rounds int, skip string) ([][]Ev, string) {
+func collect(rec *recorder, base, marker, rounds int, skip string) ([][]Ev, string) {
 	// quiet time is counted in steps of 50 ms; a step that took much longer (the process was
 	// stalled, so was the detector's timer) counts as one step only
 	start := time.Now()
@@ -546,8 +546,8 @@ func collect(rec *recorder, marker, rounds int, skip string) ([][]Ev, string) {
 	for i := range out {
 		out[i] = []Ev{}
 	}
-	if marker > 0 {
-		return out, fmt.Sprintf("%d portscan event(s) before the end of the burst", marker)
+	if marker > base {
+		return out, fmt.Sprintf("%d portscan event(s) before the end of the burst", marker-base)
 	}
 	k := -1
 	var prev time.Time
@@ -672,6 +672,10 @@ func genProbe(r *hx.Rand, src int, sport *int) Probe {
 	sp := 20000 + *sport
 	if r.Chance(1, 6) {
 		sp = 20001 // the same 4-tuple again
+	} else if r.Chance(1, 4) {
+		// a fixed / service source port: pairs that mirror other probes (S:a->b, S:b->a) or
+		// with equal ports - they collide under the state table's either-direction lookup
+		sp = r.PickInt([]int{80, 443, 23, 8080, 1000, 65535, 53})
 	}
 	return Probe{Src: src, Proto: "tcp", Port: tcpPorts[r.Intn(len(tcpPorts))], Flags: fl, SPort: sp}
 }
@@ -716,6 +720,8 @@ func scanInputs(r *hx.Rand, tier string) []SInput {
 		SInput{Probes: []Probe{icmp(0), udp(0, 7), syn(0, 80, 20001), udp(0, 7), icmp(0)}, Ticks: T},
 		SInput{Probes: []Probe{udp(0, 1), udp(1, 2), udp(2, 3), udp(3, 4), icmp(0), icmp(1), icmp(2), icmp(3)}, Ticks: T},
 	)
+	// mirrored and equal (source port, destination port) pairs from one source in one burst
+	ins = append(ins, SInput{Probes: []Probe{syn(0, 80, 40000), syn(0, 40000, 80), syn(0, 7000, 7000), syn(0, 7000, 80), syn(1, 80, 40000), syn(0, 40000, 40000)}, Ticks: T})
 	// one source probing two / three sensor addresses (same hardware address) in one window
 	at := func(p Probe, d int) Probe { p.Dst = d; return p }
 	ins = append(ins,
@@ -864,15 +870,21 @@ func main() {
 	// ---- replay of one case
 	if o.Only != "" {
 		var probe struct {
-			NOps   int     `json:"nops"`
-			Probes []Probe `json:"probes"`
-			Frames []hx.B  `json:"frames"`
-			Queue  bool    `json:"queue"`
+			NOps    int      `json:"nops"`
+			Probes  []Probe  `json:"probes"`
+			Frames  []hx.B   `json:"frames"`
+			Queue   bool     `json:"queue"`
+			Windows [][]hx.B `json:"windows"`
 		}
 		if err := hx.LoadReplay(o.Only, &probe); err != nil {
 			hx.Fatal("replay: %v", err)
 		}
-		if probe.Queue {
+		if len(probe.Windows) > 0 {
+			var in WInput
+			hx.LoadReplay(o.Only, &in)
+			ob, crash := runWindowsRetry(in)
+			hx.Write(o, "C20", "window", windowHeader, "wcase", []hx.Case{{ID: 0, Kind: "windows", Input: in, Obs: ob, Crash: crash, Coq: windowCoq(0, in, ob)}}, map[string]int{"replay": 1}, nil, 8)
+		} else if probe.Queue {
 			var in QInput
 			hx.LoadReplay(o.Only, &in)
 			oneDestination(in.Gate)
@@ -957,6 +969,22 @@ func main() {
 		wg.Wait()
 		close(queueDone)
 	}()
+	wins := windowInputs(r, o.Tier)
+	wobs := make([]WObs, len(wins))
+	wcr := make([]string, len(wins))
+	windowDone := make(chan struct{})
+	go func() {
+		var wg sync.WaitGroup
+		for i := range wins {
+			wg.Add(1)
+			go func(i int) {
+				defer wg.Done()
+				wobs[i], wcr[i] = runWindowsRetry(wins[i])
+			}(i)
+		}
+		wg.Wait()
+		close(windowDone)
+	}()
 	scanDone := make(chan struct{})
 	go func() {
 		const batch = 320
@@ -1033,6 +1061,16 @@ func main() {
 		fdist[netnsNote] = 1
 	}
 	hx.Write(o, "C20", "frame", frameHeader, "fcase", fcases, fdist, extra, 2)
+
+	<-windowDone
+	wdist := map[string]int{}
+	var wcases []hx.Case
+	for i, in := range wins {
+		wdist["windows:"+in.Class]++
+		wdist[fmt.Sprintf("report-windows:%d", len(in.Windows))]++
+		wcases = append(wcases, hx.Case{ID: i, Kind: "windows", Input: in, Obs: wobs[i], Crash: wcr[i], Coq: windowCoq(i, in, wobs[i])})
+	}
+	hx.Write(o, "C20", "window", windowHeader, "wcase", wcases, wdist, extra, 1000)
 
 	<-queueDone
 	qdist := map[string]int{}
